@@ -126,6 +126,10 @@ func execC09(seg []Ev) []Ev {
 				}
 			}
 			t.SetDecodeStrings(true)
+			if len(text)%3 == 0 {
+				t.SetUnifyNumbers(true) // there are no numbers in CSV: the option changes nothing
+				e["unify"] = true
+			}
 			toks = t.TokenizeBuffer(text)
 			// the list stays what it was when the same tokenizer goes on to another table
 			then := tokRender(toks)
